@@ -48,6 +48,7 @@ TYPES = [
     record("SibE", [F("e", P("int32"))], includes=["SibA"]),
     record("SibG", [F("g", P("string"))], includes=["SibE"]),
     record("SibP", [F("p", P("int32"))], includes=["SibE"]),
+    record("SibOnly", [], includes=["SibE"]),     # includes only, no field of its own
     named("standaloneUnion", "U", Union={"HasNull": False, "Members": [
         {"Type": P("int32"), "Alias": "int"}, {"Type": P("string"), "Alias": "string"},
         {"Type": R("Leaf"), "Alias": "vt.Leaf"}, {"Type": R("Color"), "Alias": "vt.Color"},
